@@ -24,7 +24,7 @@ EXHAUSTIVE = {"quick": ["R=Q=all strings len<=4 over AC, k=1..5 (every (q,r) inc
                            "R=Q=all len<=3 over ACD, k=1..4", "LookupDB: R=Q=all len<=2 over ACD k=1..3"]}
 REQUIRE = {"hits_q_equals_r": 50, "hits_d0": 50, "queries_without_hit": 20, "lookups_after_first_on_same_build": 30,
            "invariant_evaluations": 100, "failed_lookups_then_continued": 5, "injected_faults_then_continued": 3,
-           "lookupdb_cases": 10, "fresh_oneshot_comparisons": 30, "len_Q_ne_len_R": 20}
+           "lookupdb_cases": 10, "fresh_oneshot_comparisons": 30, "len_Q_ne_len_R": 20, "lookupdb_radius_changes": 10}
 SHARDS = {"quick": 6, "thorough": 16}
 
 _INV = {"evals": 0, "installed": False}
@@ -121,6 +121,14 @@ def k_lookupdb(ctx, refs, queries, k):
     out = ctx.call(db.value.lookup, rq, max_edits=k)
     S.expect_triplets(ctx, out, exp2, "LookupDB.lookup", "cross-repeat")
     ctx.count("lookups_after_first_on_same_build")
+    # the same object asked again with other radii (smaller and larger), same queries: no memory of the earlier radius
+    for k2 in [kk for kk in (1, 2, 3) if kk != k and (kk <= 2 or max(len(q) for q in queries) <= 2)]:
+        expk = O.neigh_cross(queries, refs, k2)
+        out = ctx.call(db.value.lookup, list(queries), max_edits=k2)
+        S.expect_triplets(ctx, out, expk, "LookupDB.lookup", "cross-other-radius-on-same-object")
+        ctx.count("lookupdb_radius_changes")
+    out = ctx.call(db.value.lookup, list(queries), max_edits=k)
+    S.expect_triplets(ctx, out, exp, "LookupDB.lookup", "cross-original-radius-again")
     ctx.count("invariant_evaluations", _INV["evals"] - before)
 
 
